@@ -3,6 +3,7 @@ import LogicaModel.Escape
 import LogicaModel.TypeAlg
 import LogicaModel.OrderLimit
 import LogicaModel.Concertina
+import LogicaModel.Udf
 /-! Request handlers of the line-protocol driver (executable definitions of the models only). -/
 open Lean
 
@@ -171,12 +172,34 @@ def handleConcertina (op : String) (j : Json) : Except String Json := do
     return Json.mkObj [("requires", Json.mkObj (c.names.map fun a => (a, toJson (Concertina.sortStrings (c.requiresOf a)))))]
   | _ => throw ("unknown op " ++ op)
 
+/-! ### Udf -/
+def handleUdf (op : String) (j : Json) : Except String Json := do
+  match op with
+  | "argk" =>
+    let isMax := (j.getObjValAs? Bool "max").toOption.getD false
+    let rows ← j.getObjValAs? (Array (Array Int)) "rows"
+    let k := optInt j "k"
+    -- rows arrive as (arg, value); the model keeps (value, arg)
+    let rs : List Udf.VA := rows.toList.map fun a => (a.getD 1 0, a.getD 0 0)
+    -- finalize after every prefix
+    let outs := (List.range rs.length).map fun i =>
+      let pre := rs.take (i + 1)
+      match (if isMax then Udf.argMax k pre else Udf.argMin k pre) with
+      | some l => toJson l
+      | none => Json.null
+    return Json.mkObj [("outs", Json.arr outs.toArray)]
+  | "range_cte" =>
+    let n ← j.getObjValAs? Int "n"
+    return Json.mkObj [("out", toJson (Udf.rangeCte n))]
+  | _ => throw ("unknown op " ++ op)
+
 def handle (j : Json) : Except String Json := do
   let op ← str j "op"
   if ["strlit", "lex", "useflags", "buildflags"].contains op then handleEscape op j
   else if ["meet", "meet3"].contains op then handleTypeAlg op j
   else if ["clauses", "eval_ordered"].contains op then handleOrderLimit op j
   else if ["concertina", "concertina_requires"].contains op then handleConcertina op j
+  else if ["argk", "range_cte"].contains op then handleUdf op j
   else throw ("unknown op " ++ op)
 
 end Logica.Ops
